@@ -31,7 +31,7 @@ GROUPS = {   # domains of spec/SrcLayout.tla (DomTab) per TLC run
 # every defect domain must make TLC report the unconditioned clauses violated (the model exhibits the defect)
 EXHIBIT_DOMAINS = ["breaks", "decos", "leak", "bom", "twinx"]
 EXHIBIT_INV = {"SpanExact", "DocExact", "TextExact", "FileExact", "Loadable"}
-# ... and every named cause must be seen in the model's own deviation table (implx) of some emitted layout
+# every domain of the tier must emit layouts (vacuity)
 EXPECT_DOMAINS = {"core", "wide", "conts", "breaks", "decos", "leak", "bom", "twin", "twinx"}
 
 
@@ -45,8 +45,8 @@ def modes_for(h: int, case: dict, tier: str) -> tuple:
         return ("stubs",)
     m = ["load"]
     k = (h // 4) % 4
-    # one extra mode per layout (two in the thorough tier): every mode meets every domain, evenly
-    ks = {k, (k + 1 + (h // 16) % 3) % 4} if tier == "thorough" else {k}
+    # load/stubs on every layout plus one of the four other modes: every mode meets every domain, evenly
+    ks = {k}
     for j, name in enumerate(("json", "nosource", "visit", "inspect")):
         if j in ks:
             m.append(name)
